@@ -30,6 +30,7 @@
 
 import abc
 import inspect
+import threading
 from enum import Enum
 from types import FrameType
 
@@ -83,6 +84,7 @@ class LocationAction(object):
         self.__config = config
         self.__window = TracepointWindow(self.__config.get(WINDOW_START, 0), self.__config.get(WINDOW_END, 0))
         self.__stats = TracepointExecutionStats()
+        self.__lock = threading.Lock()
         self.__action_type = action_type
         self.__location: Optional['Location'] = None
 
@@ -179,6 +181,22 @@ class LocationAction(object):
                 return False
 
         return True
+
+    def try_fire(self, ts) -> bool:
+        """
+        Check the limits and record the fire as one step.
+
+        Several threads can reach the same tracepoint at the same time: checking the limits and recording the
+        fire separately would let all of them pass the check before any of them is recorded.
+
+        :param ts: the time the tracepoint has been triggered
+        :return: True, if this hit may fire (it is now recorded); else False
+        """
+        with self.__lock:
+            if not self.can_trigger(ts):
+                return False
+            self.__stats.fire(ts)
+            return True
 
     def record_triggered(self, ts):
         """
